@@ -531,6 +531,10 @@ theorem scheduleSlot_inv (e : Env) (σ : St) (t : Nat) (w : Walk) (wf : WF e) (h
       · have : ¬ ((bookResources e σ t w).2.done ≥ (e.taskD t).effort) := by simpa using hnot
         grind
 
+theorem walkOk_advance (e : Env) (t : Nat) (wf : WF e) (fwd : Bool) (w w1 : Walk) (h : WalkOk e t w1) :
+    WalkOk e t (advance fwd w w1) :=
+  ⟨Rat.le_refl, G_rat_nonneg wf, h.done_le⟩
+
 theorem walkLoop_inv (e : Env) (t : Nat) (fwd : Bool) (fuel : Nat) (σ : St) (w : Walk) (wf : WF e)
     (h : Inv e σ) (hlf : (e.taskD t).leaf = true) (hw : WalkOk e t w) : Inv e (walkLoop e t fwd fuel σ w).1 := by
   induction fuel generalizing σ w with
@@ -546,7 +550,7 @@ theorem walkLoop_inv (e : Env) (t : Nat) (fwd : Bool) (fuel : Nat) (σ : St) (w 
       have hw1 := hs.2 hcont
       split
       · exact hs.1
-      · exact ih _ _ hs.1 ⟨hw1.off_nonneg, hw1.off_le, hw1.done_le⟩
+      · exact ih _ _ hs.1 (walkOk_advance e t wf _ _ _ hw1)
 
 theorem foldl_ge_init {α : Type} (f : Int → α → Int) (l : List α) (init : Int) (hf : ∀ acc x, acc ≤ f acc x) :
     init ≤ l.foldl f init := by
